@@ -16,7 +16,10 @@ import (
 
 var errC07Sentinel = errors.New("sentinel-filter-failure")
 
-var c07 struct{ eng, strict *liquid.Engine }
+var c07 struct {
+	eng, strict *liquid.Engine
+	mk          func() *liquid.Engine
+}
 
 type c07Kind struct {
 	name      string
@@ -283,6 +286,83 @@ func c07Families(tier string) []explore.Family {
 			}
 		}})
 	}
+	// under custom delimiters - among them delimiters that CONTAIN a newline (a tag closer that takes the line end with
+	// it), whose newlines count like any others: every kind inside every form, re-spelled
+	delimSets := [][4]string{{"<<", ">>", "<%", "%>"}, {"<<", ">>", "<%", "%>\n"}, {"[[\n", "]]", "[%", "%]"}, {"«", "»", "‹%", "%›"}, {"<", ">", "\n[", "]"}}
+	type dEng struct{ eng, strict *liquid.Engine }
+	dEngs := map[int]dEng{}
+	respell := func(src string, q [4]string) string {
+		return strings.NewReplacer("{{", q[0], "}}", q[1], "{%", q[2], "%}", q[3]).Replace(src)
+	}
+	fams = append(fams, explore.Family{Name: "under-custom-delimiters", Count: int64(len(delimSets) * K * len(c07Forms) * 6 * 2), Run: func(i int64, r *explore.Rec) {
+		rx := radix{i}
+		viaParseAndRender, li, form, kind, qi := rx.next(2) == 1, rx.next(6), c07Forms[rx.next(len(c07Forms))], c07Kinds[rx.next(K)], rx.next(len(delimSets))
+		q, loc := delimSets[qi], c07Locs[li]
+		if viaParseAndRender && (loc.path != "" || loc.line != 0) {
+			return
+		}
+		if kind.name == "stray-clause-tag" && strings.Contains(form.open, "case") {
+			return
+		}
+		if strings.ContainsAny(kind.src+kind.body+kind.tail, "<>[]«»‹›") {
+			return // the construct's own text would collide with these delimiters
+		}
+		if strings.Contains(strings.Join(q[:], ""), "\n") && strings.Count(kind.src, "{%")+strings.Count(kind.src, "{{") > 1 {
+			return // the construct's own tags would move the failing token to a later line
+		}
+		de, ok := dEngs[qi]
+		if !ok {
+			de = dEng{c07.mk().Delims(q[0], q[1], q[2], q[3]), c07.mk().Delims(q[0], q[1], q[2], q[3])}
+			de.strict.StrictVariables()
+			dEngs[qi] = de
+		}
+		pre := "x\n" + form.open + "\ny \n"
+		src := pre + kind.src + kind.body + "\ntail\n"
+		if !kind.unclosed {
+			src += kind.tail + "\n" + form.close
+		}
+		rsrc, rpre := respell(src, q), respell(pre, q)
+		wantLine := loc.line + strings.Count(rpre, "\n")
+		eng := de.eng
+		if kind.strict {
+			eng = de.strict
+		}
+		desc := map[string]any{"template": rsrc, "delims": q, "path": loc.path, "start_line": loc.line, "kind": kind.name}
+		r.Eval()
+		r.Transition()
+		r.Trace()
+		var perr, rerr liquid.SourceError
+		var out []byte
+		p := explore.Safe(func() {
+			if viaParseAndRender {
+				out, rerr = eng.ParseAndRender([]byte(rsrc), map[string]any{})
+				return
+			}
+			var tpl *liquid.Template
+			tpl, perr = eng.ParseTemplateLocation([]byte(rsrc), loc.path, loc.line)
+			if perr == nil {
+				out, rerr = tpl.Render(map[string]any{})
+			}
+		})
+		r.Class("custom-delims/" + kind.name)
+		r.State("custom-delims")
+		if p != nil {
+			r.Violation(p.Key(), desc, "a SourceError", p.Value)
+			return
+		}
+		err := perr
+		if err == nil {
+			err = rerr
+		}
+		switch {
+		case err == nil:
+			r.Violation("L1:no-error:custom-delimiters:"+kind.name, desc, "a non-nil SourceError", fmt.Sprintf("output %q", out))
+		case err.LineNumber() != wantLine:
+			r.Violation("L2:line:custom-delimiters:"+kind.name, desc, fmt.Sprintf("line %d", wantLine), fmt.Sprintf("line %d (%s)", err.LineNumber(), safeErr(err)))
+		case err.Path() != loc.path:
+			r.Violation("L3:path:custom-delimiters:"+kind.name, desc, loc.path, err.Path())
+		}
+	}})
 	// scaled: the failing construct after 9..5000 lines and inside 5..40 nested blocks
 	lines := []int{9, 10, 11, 99, 100, 101, 255, 256, 257, 999, 1000, 1001, 4999, 5000}
 	depths := []int{0, 5, 8, 9, 10, 16, 17, 33, 40}
@@ -461,7 +541,7 @@ func init() {
 				})
 				return e
 			}
-			c07.eng, c07.strict = mk(), mk()
+			c07.eng, c07.strict, c07.mk = mk(), mk(), mk
 			c07.strict.StrictVariables()
 		},
 		Families: c07Families,
